@@ -24,6 +24,61 @@ type Scenario struct {
 	File  recipe.File `json:"file"`
 	Paths []string    `json:"paths"` // Paths[i] is the package that declares markers S<i>, T<i>, F<i>
 	Note  string      `json:"note,omitempty"`
+	// Split > 0: staged use of one File. The File is built with the first Split-1 settings and the whole body and
+	// rendered once (result discarded); the remaining settings are applied afterwards and the File is rendered
+	// again. The first render registered every path of the body, so the later hints, prefix and dot aliases can
+	// no longer rename anything: the model is that of the early settings (plus the late anonymous imports,
+	// preambles and NoFormat).
+	Split int `json:"split,omitempty"`
+}
+
+// StagedModel is the model of a staged scenario (see Scenario.Split).
+func (sc *Scenario) StagedModel() *Model {
+	k := sc.Split - 1
+	if k > len(sc.File.Ops) {
+		k = len(sc.File.Ops)
+	}
+	early := sc.File
+	early.Ops = sc.File.Ops[:k]
+	m := ModelOf(&early)
+	referenced := map[string]bool{}
+	for _, p := range sc.Paths {
+		referenced[p] = true
+	}
+	for _, op := range sc.File.Ops[k:] {
+		switch op.Op {
+		case "Anon":
+			for _, a := range op.Args {
+				m.Anon[string(a)] = true
+			}
+		case "CgoPreamble":
+			m.Preamble = append(m.Preamble, string(op.Args[0]))
+		case "NoFormat":
+			m.NoFormat = true
+		}
+	}
+	return m
+}
+
+// RenderStaged performs the staged use described at Scenario.Split.
+func (sc *Scenario) RenderStaged() ([]byte, error) {
+	k := sc.Split - 1
+	if k > len(sc.File.Ops) {
+		k = len(sc.File.Ops)
+	}
+	early := sc.File.Clone()
+	late := early.Ops[k:]
+	early.Ops = early.Ops[:k]
+	f := recipe.BuildFile(early)
+	_ = f.Render(&bytes.Buffer{})
+	for i := range late {
+		recipe.ApplyFileOp(f, &late[i])
+	}
+	buf := &bytes.Buffer{}
+	if err := f.Render(buf); err != nil {
+		return nil, err
+	}
+	return buf.Bytes(), nil
 }
 
 // Model is what the scenario's File configuration means, computed
@@ -185,10 +240,19 @@ func (sc *Scenario) run(warm bool) (*Outcome, error) { return sc.runWith(warm, n
 
 func (sc *Scenario) runWith(warm bool, warmFile *recipe.File) (*Outcome, error) {
 	m := ModelOf(&sc.File)
+	if sc.Split > 0 && !warm {
+		m = sc.StagedModel()
+	}
 	o := &Outcome{Model: m, Markers: sc.Markers()}
-	src, err := sc.Render()
-	if warm {
+	var src []byte
+	var err error
+	switch {
+	case warm:
 		src, err = sc.RenderAfterWarmupIn(warmFile)
+	case sc.Split > 0:
+		src, err = sc.RenderStaged()
+	default:
+		src, err = sc.Render()
 	}
 	if err != nil {
 		o.RenderErr = err
